@@ -44,8 +44,8 @@ RULE = ("P (pipeline scenarios): a 4-gene linear record and a 3-gene circular re
         "of which ra/rb/rab and rc/rac yield protoclusters with identical coordinates.  Each scenario runs "
         "detection -> protoclusters -> candidate clusters -> regions -> GenBank -> JSON in child processes with "
         "PYTHONHASHSEED 0..7 (thorough 0..15) and in-process under 4 (thorough 8) permutations of the iteration order "
-        "of every set built by `set(...)` in the anchored modules; the eight stage dumps (detection-json, protoclusters, "
-        "candidates, regions, unique-protoclusters, areas, genbank, json) are compared byte-wise.  "
+        "of every set built by `set(...)` in the anchored modules; the nine stage dumps (detection-json, protoclusters, "
+        "candidates, regions, unique-protoclusters, areas, domain-qualifiers, genbank, json) are compared byte-wise.  "
         "A (areas): records whose protoclusters are given directly - 2-3 protoclusters of different products with "
         "IDENTICAL coordinates (+ optionally one with other coordinates), linear and on a ring, in the middle, at the "
         "edge, with the neighbourhood or the core across the origin, added in both orders (64 cases; thorough 128) - run "
@@ -59,16 +59,21 @@ RULE = ("P (pipeline scenarios): a 4-gene linear record and a 3-gene circular re
         "non-equivalent profiles starting at the SAME protein position (a=d, d=a, a=c, a=c=d; d is used by no rule) "
         "with the other genes empty / all `a` (56 scenarios; thorough 112).  Sets derived from a permuted set "
         "(difference, union, ...) iterate in the chosen permutation too.  "
+        "Every gene of every P / A record carries an aSDomain with 2-3 and a PFAM_domain with 2 active-site (ASF) "
+        "labels and 2 GO terms (the qualifiers kept in sets / dicts and written as lists); the qualifiers of CDS and "
+        "domain features form a stage dump of their own (domain-qualifiers).  "
         "T (hits kept): all sets of 2-3 hits of the C13 grids q3, q5 / h1 that contain a tie (equal start, equal "
-        "score, identical coordinates) for refine_hmmscan_results (8 seeds; every iteration order of the per-protein "
+        "score, identical coordinates; q6: pairs that differ in exactly one of profile, end, bitscore, e-value) for refine_hmmscan_results (8 seeds; every iteration order of the per-protein "
         "set) and hmmer.remove_overlapping (8 seeds); filter_results on the C13 sets f0, f1, f2 with every slot "
         "(address) assignment of the HSP objects, comparing the survivors AND the order in which each gene's hits come back.  A case is one scenario / one hit set (+ mode); non-trivial: a P "
         "scenario yields >= 1 protocluster and has a gene with two hits or two genes with hits, a T set has >= 2 hits; "
         "distinct = distinct case.")
 EXHAUSTIVE = {"quick": True, "thorough": False}
 
-STAGES = ["detection-json", "protoclusters", "candidates", "regions", "unique-protoclusters", "areas", "genbank", "json"]
-FULL_TEXT_STAGES = ("detection-json", "protoclusters", "candidates", "regions", "unique-protoclusters", "areas")
+STAGES = ["detection-json", "protoclusters", "candidates", "regions", "unique-protoclusters", "areas",
+          "domain-qualifiers", "genbank", "json"]
+FULL_TEXT_STAGES = ("detection-json", "protoclusters", "candidates", "regions", "unique-protoclusters", "areas",
+                    "domain-qualifiers")
 
 RULES_TEXT = """
 RULE ra CATEGORY Cat CUTOFF 3 NEIGHBOURHOOD 1 CONDITIONS a
@@ -197,6 +202,7 @@ def run_pipeline(scn: dict[str, Any]) -> dict[str, str]:
         for name, start, end, strand in scn["genes"]:
             rec.add_cds_feature(mod["CDSFeature"](mod["FeatureLocation"](start, end, strand), locus_tag=name,
                                                   translation="M" * ((end - start) // 3)))
+        decorate_genes(rec, scn["genes"])
         profiles = ["a", "b", "c", "d"]
         rules = mod["rule_parser"].Parser(RULES_TEXT, set(profiles), {"Cat"}).rules
         sigs = {p: mod["HmmSignature"](p, "profile " + p, 10, "nofile") for p in profiles}
@@ -228,6 +234,41 @@ def run_pipeline(scn: dict[str, Any]) -> dict[str, str]:
     return out
 
 
+ASF_LABELS = ["active site serine present", "catalytic triad S,D,H complete", "KR domain putatively catalyzing D-configuration"]
+
+
+def decorate_genes(rec: Any, genes: list[list]) -> None:
+    """ every gene gets an aSDomain with three and a PFAM_domain with two active-site (ASF) labels and two GO
+        terms: the qualifiers that antiSMASH keeps in sets / dicts and writes as lists """
+    mod = _modules()
+    from antismash.common.secmet.features import AntismashDomain, PFAMDomain  # pylint: disable=import-outside-toplevel
+    from antismash.common.secmet.qualifiers.go import GOQualifier  # pylint: disable=import-outside-toplevel
+    for n, (name, start, _end, strand) in enumerate(genes):
+        dom = AntismashDomain(mod["FeatureLocation"](start + 30, start + 120, strand), "verif_tool",
+                              mod["FeatureLocation"](10, 40), locus_tag=name, domain="KR")
+        dom.domain_id = f"verif_{name}_0001"
+        for label in ASF_LABELS[n % 2:]:      # three labels, or two on every other gene
+            dom.asf.add(label)
+        rec.add_antismash_domain(dom)
+        pfam = PFAMDomain(mod["FeatureLocation"](start + 150, start + 300, strand), "a pfam", mod["FeatureLocation"](50, 100),
+                          identifier="PF00106.5", tool="verif_pfam", locus_tag=name)
+        pfam.domain_id = f"verifpfam_{name}_0001"
+        pfam.gene_ontologies = GOQualifier({"GO:0016491": "oxidoreductase activity", "GO:0004312": "fatty acid synthase activity"})
+        for label in ASF_LABELS[:2]:
+            pfam.asf.add(label)
+        rec.add_pfam_domain(pfam)
+
+
+def _feature_qualifiers(bio_record: Any) -> str:
+    """ the qualifiers of the CDS and domain features as they are written (order of values included) """
+    rows = []
+    for feature in bio_record.features:
+        if feature.type in ("CDS", "aSDomain", "PFAM_domain", "CDS_motif"):
+            rows.append([feature.type, str(feature.location), [[k, list(v)] for k, v in feature.qualifiers.items()
+                                                               if k != "translation"]])
+    return json.dumps(rows)
+
+
 class _StageError(Exception):
     def __init__(self, stage: str, err: Exception) -> None:
         super().__init__(str(err))
@@ -257,9 +298,12 @@ def _finish_record(rec: Any, out: dict[str, str], module_results: dict[str, Any]
         out["unique-protoclusters"] = json.dumps([[r.get_region_number(), bool(r.crosses_origin()),
                                                    [rec.get_protocluster_number(p) for p in r.get_unique_protoclusters()]]
                                                   for r in rec.get_regions()])
+        stage = "domain-qualifiers"
+        bio_record = rec.to_biopython()
+        out["domain-qualifiers"] = _feature_qualifiers(bio_record)
         stage = "genbank"
         handle = io.StringIO()
-        mod["SeqIO"].write(rec.to_biopython(), handle, "genbank")
+        mod["SeqIO"].write(bio_record, handle, "genbank")
         out["genbank"] = handle.getvalue()
         stage = "json"
         full = mod["serialiser"].AntismashResults("input.gbk", [rec], [module_results], "verif")
@@ -384,6 +428,7 @@ def run_areas(case: dict[str, Any]) -> dict[str, str]:
         for name, start, end, strand in case["genes"]:
             rec.add_cds_feature(mod["CDSFeature"](mod["FeatureLocation"](start, end, strand), locus_tag=name,
                                                   translation="M" * ((end - start) // 3)))
+        decorate_genes(rec, case["genes"])
         for product, core, surround in case["protos"]:
             rec.add_protocluster(Protocluster(location(core), location(surround), "rule-based-clusters", product,
                                               1000, 1000, "rule " + product, "Cat"))
@@ -464,6 +509,15 @@ PATCHED_MODULES = [
     "antismash.common.secmet.features.cdscollection",
     "antismash.common.secmet.record",
     "antismash.common.secmet.qualifiers.gene_functions",
+    "antismash.common.secmet.qualifiers.asf",
+    "antismash.common.secmet.qualifiers.secmet",
+    "antismash.common.secmet.qualifiers.go",
+    "antismash.common.secmet.qualifiers.nrps_pks",
+    "antismash.common.secmet.features.feature",
+    "antismash.common.secmet.features.domain",
+    "antismash.common.secmet.features.antismash_domain",
+    "antismash.common.secmet.features.pfam_domain",
+    "antismash.common.secmet.features.cds_feature",
     "antismash.common.serialiser",
 ]
 
@@ -1016,23 +1070,24 @@ def shards(tier: str, seed: int) -> list:
     if tier == "quick":
         seeds = list(range(8))
         jobs = [{"fam": "refine", "cfg": "q3", "sizes": [2, 3]}, {"fam": "refine", "cfg": "q5", "sizes": [2]},
-                {"fam": "hmmer", "cfg": "h1", "sizes": [2, 3]}]
+                {"fam": "refine", "cfg": "q6", "sizes": [2]}, {"fam": "hmmer", "cfg": "h1", "sizes": [2, 3]}]
         out += [{"fam": "seed", "tier": tier, "jobs": jobs, "chunk": i, "of": 4, "seeds": seeds} for i in range(4)]
         out += [{"fam": "setorder-pipeline", "tier": tier, "chunk": i, "of": 6, "modes": [0, 1, 2, 3]} for i in range(6)]
         out += [{"fam": "setorder-areas", "tier": tier, "chunk": 0, "of": 1, "modes": list(range(6))}]
         out += [{"fam": "setorder-t", "cfg": "q3", "sizes": [2, 3], "chunk": i, "of": 2} for i in range(2)]
         out += [{"fam": "setorder-t", "cfg": "q5", "sizes": [2, 3], "chunk": 0, "of": 1}]
+        out += [{"fam": "setorder-t", "cfg": "q6", "sizes": [2, 3], "chunk": i, "of": 3} for i in range(3)]
         out += [{"fam": "layout", "cfg": "f0", "chunk": 0, "of": 1}, {"fam": "layout", "cfg": "f1", "chunk": 0, "of": 2},
                 {"fam": "layout", "cfg": "f1", "chunk": 1, "of": 2}, {"fam": "layout", "cfg": "f2", "chunk": 0, "of": 1}]
         return out
     seeds = list(range(16))
     jobs = [{"fam": "refine", "cfg": "q0", "sizes": [2, 3]}, {"fam": "refine", "cfg": "q3", "sizes": [2, 3]},
-            {"fam": "refine", "cfg": "q5", "sizes": [2, 3]}, {"fam": "hmmer", "cfg": "h1", "sizes": [2, 3]},
+            {"fam": "refine", "cfg": "q5", "sizes": [2, 3]}, {"fam": "refine", "cfg": "q6", "sizes": [2, 3]}, {"fam": "hmmer", "cfg": "h1", "sizes": [2, 3]},
             {"fam": "hmmer", "cfg": "h0", "sizes": [2, 3]}]
     out += [{"fam": "seed", "tier": tier, "jobs": jobs, "chunk": i, "of": 16, "seeds": seeds} for i in range(16)]
     out += [{"fam": "setorder-pipeline", "tier": tier, "chunk": i, "of": 16, "modes": list(range(8))} for i in range(16)]
     out += [{"fam": "setorder-areas", "tier": tier, "chunk": i, "of": 2, "modes": list(range(24))} for i in range(2)]
-    for cfg in ("q0", "q1", "q2", "q3", "q5"):
+    for cfg in ("q0", "q1", "q2", "q3", "q5", "q6", "r6"):
         out += [{"fam": "setorder-t", "cfg": cfg, "sizes": [2, 3], "chunk": i, "of": 4} for i in range(4)]
     out += [{"fam": "setorder-t", "cfg": "q4", "sizes": [4], "chunk": i, "of": 4} for i in range(4)]
     out += [{"fam": "layout", "cfg": "f0", "sizes": [2, 3, 4], "chunk": i, "of": 4} for i in range(4)]
@@ -1065,7 +1120,7 @@ def replay(case: dict[str, Any]) -> list[str]:
     fn = case.get("fn")
     if fn == "pipeline":
         variants = {}
-        for mode in (0, 1, 2, 3):
+        for mode in range(6):  # every order of a set of up to three
             with permuted_sets(mode):
                 variants[f"perm{mode}"] = _digest(run_pipeline(plain))
         compare_pipeline(col, "setorder", plain, variants)
